@@ -47,6 +47,17 @@ man = {
     "notes": "MANIFEST.json is assembled by tools/mkmanifest.py from checks/cNN.py; see DESIGN.md",
     "not_applicable": na,
 }
+# known_findings.json is the concatenation of the per-property fragments known/Cxx.json
+frs = []
+kdir = os.path.join(HERE, "known")
+for fn in sorted(os.listdir(kdir)) if os.path.isdir(kdir) else []:
+    if fn.endswith(".json"):
+        frs += json.load(open(os.path.join(kdir, fn)))
+with open(os.path.join(HERE, "known_findings.json"), "w") as f:
+    json.dump({"comment": "assembled by tools/mkmanifest.py from known/*.json; never written by a check. "
+                          "status is 'open' or 'fixed: property=Cxx <commit> <what failed>'",
+               "findings": frs}, f, indent=1)
+    f.write("\n")
 out = json.dumps(man, indent=1)
 with open(os.path.join(HERE, "MANIFEST.json"), "w") as f:
     f.write(out + "\n")
